@@ -890,3 +890,169 @@ func ruleFrontendSize(rule string) ruleFn {
 		}
 	}
 }
+
+// ---------------------------------------------------------------------------
+// *-JOINREGION: join snapshot and attach are one lock region
+// ---------------------------------------------------------------------------
+
+// ruleJoinRegion: a replica joins behind a snapshot that is taken on all members (so that only
+// closed files have to be copied) and is attached to the write fan-out in the same critical
+// section: a write acknowledged between the two lands in the members' new heads and never
+// reaches the newcomer, which is later promoted without it.  Typestate over package controller,
+// interprocedural: idle -join snapshot-> snap -controller lock released-> stale -AddBackend-> BAD.
+func ruleJoinRegion(rule string) ruleFn {
+	return func(c *Ctx) {
+		c.Doc(rule, "typestate over package controller (interprocedural summaries, deferred calls applied at return): after the join snapshot of the members (replicator.Snapshot with userCreated == false) no release of a controller lock (Unlock / RUnlock, plain or deferred) happens before the replica is attached (replicator.AddBackend) - snapshot and attach are one critical section, whichever functions they are written in")
+		T := newTS(c.P)
+		T.Follow = func(g *ssa.Function) bool {
+			n := FnName(g)
+			return strings.Contains(n, "controller.") && !strings.Contains(n, "controller/")
+		}
+		nSnap, nAdd := 0, 0
+		T.Prim = func(fn *ssa.Function, R *Renderer, in ssa.Instruction, st string) (string, bool) {
+			if st == "BAD" {
+				return st, false
+			}
+			ci, ok := in.(ssa.CallInstruction)
+			if !ok {
+				return st, false
+			}
+			switch CalleeName(in) {
+			case fRepl + "Snapshot":
+				a := ci.Common().Args
+				if len(a) >= 3 {
+					if k, ok := strip(a[2]).(*ssa.Const); ok && k.Value != nil && k.Value.String() == "false" {
+						return "snap", true
+					}
+					if _, isConst := strip(a[2]).(*ssa.Const); !isConst {
+						return "snap", true // not known to be a user snapshot
+					}
+				}
+			case "(*sync.RWMutex).Unlock", "(*sync.RWMutex).RUnlock":
+				if st == "snap" {
+					return "stale", true
+				}
+			case fRepl + "AddBackend":
+				if st == "stale" {
+					return "BAD", true
+				}
+				return "idle", true
+			}
+			return st, false
+		}
+		for _, fn := range prodFns(c.P) {
+			nSnap += len(AnyCallsTo(fn, fRepl+"Snapshot"))
+			nAdd += len(AnyCallsTo(fn, fRepl+"AddBackend"))
+		}
+		n := 0
+		for _, fn := range c.P.methodsOf("controller", "Controller") {
+			if fn.Blocks == nil {
+				continue
+			}
+			n++
+			bad := false
+			for _, e := range T.Summary(fn, "idle") {
+				if e.Out == "BAD" {
+					bad = true
+					c.Bad(rule, FnName(fn)+" | join snapshot and attach in one lock region", c.P.Pos(fn.Pos()), "a path takes the join snapshot on the members, releases the controller lock, and attaches the replica afterwards: writes acknowledged in between are in no file the rebuild copies", c.witness(Witness{Path: T.WitnessFor(fn, e.Kind, e.Out)}))
+					break
+				}
+			}
+			if !bad && (len(AnyCallsTo(fn, fRepl+"Snapshot")) > 0 || len(AnyCallsTo(fn, fRepl+"AddBackend")) > 0 || strings.HasSuffix(FnName(fn), ".addReplica") || strings.HasSuffix(FnName(fn), ".AddReplica")) {
+				c.OK(rule, FnName(fn)+" | join snapshot and attach in one lock region", c.P.Pos(fn.Pos()), "no exit in state BAD", true)
+			}
+		}
+		if n < 40 || nSnap < 2 || nAdd < 1 {
+			c.Undecided(rule, "vacuity-floor", "", fmt.Sprintf("%d controller methods, %d Snapshot fan-outs, %d AddBackend calls", n, nSnap, nAdd))
+		}
+	}
+}
+
+// ---------------------------------------------------------------------------
+// *-LISTDISKS: the listing the cleaner's filters read is the current chain state
+// ---------------------------------------------------------------------------
+
+func ruleListDisks(rule string) ruleFn {
+	return func(c *Ctx) {
+		c.Doc(rule, "Replica.ListDisks (the input of the snapshot cleaner's filters and of the controller's deletion checks) publishes, for every disk of diskData, a DiskInfo built in that very iteration whose Name / Parent / Removed / UserCreated / Created / RevisionCounter are the fields of that disk: no entry comes out of a cache or another container (an entry that outlives its disk turns a later snapshot of the same name into a deletion candidate)")
+		fn := c.Anchor(rule, fRep+"ListDisks")
+		if fn == nil {
+			return
+		}
+		R := NewRenderer(fn)
+		n := 0
+		eachInstr(fn, func(in ssa.Instruction) {
+			mu, ok := in.(*ssa.MapUpdate)
+			if !ok {
+				return
+			}
+			if _, isMk := strip(mu.Map).(*ssa.MakeMap); !isMk {
+				if R.V(mu.Map) != "makemap" {
+					return
+				}
+			}
+			n++
+			key := FnName(fn) + " | entry built from the disk it describes"
+			ld, ok := strip(mu.Value).(*ssa.UnOp)
+			var al *ssa.Alloc
+			if ok && ld.Op == token.MUL {
+				al, _ = ld.X.(*ssa.Alloc)
+			}
+			if al == nil {
+				c.Bad(rule, key, c.P.InstrPos(in), "the published entry is "+R.V(mu.Value)+", not a DiskInfo assembled in this iteration", nil)
+				return
+			}
+			kterm := R.V(mu.Key)
+			base := strings.TrimSuffix(kterm, ".Name")
+			if !strings.HasSuffix(kterm, ".Name") || !strings.HasPrefix(base, "$0.diskData[") {
+				c.Bad(rule, key, c.P.InstrPos(in), "entry is published under "+kterm+", expected the name of the ranged disk", nil)
+				return
+			}
+			got := map[string]string{}
+			if al.Referrers() != nil {
+				for _, u := range *al.Referrers() {
+					if ws, ok := u.(*ssa.Store); ok && ws.Addr == ssa.Value(al) {
+						if k, isConst := ws.Val.(*ssa.Const); !isConst || k.Value != nil {
+							got["Name"] = "whole value " + R.V(ws.Val)
+							got["Removed"] = got["Name"]
+						}
+						continue
+					}
+					fa, ok := u.(*ssa.FieldAddr)
+					if !ok || fa.Referrers() == nil {
+						continue
+					}
+					st := al.Type().Underlying().(*types.Pointer).Elem().Underlying().(*types.Struct)
+					for _, w := range *fa.Referrers() {
+						if s, ok := w.(*ssa.Store); ok && s.Addr == fa {
+							got[st.Field(fa.Field).Name()] = R.V(s.Val)
+						}
+					}
+				}
+			}
+			bad := ""
+			if al.Referrers() != nil {
+				for _, u := range *al.Referrers() {
+					if ws, ok := u.(*ssa.Store); ok && ws.Addr == ssa.Value(al) {
+						if k, isConst := ws.Val.(*ssa.Const); !isConst || k.Value != nil {
+							bad += " (the whole entry is also assigned " + R.V(ws.Val) + ")"
+						}
+					}
+				}
+			}
+			for _, f := range []string{"Name", "Parent", "Removed", "UserCreated", "Created", "RevisionCounter"} {
+				if got[f] != base+"."+f {
+					bad += fmt.Sprintf(" %s=%q", f, got[f])
+				}
+			}
+			if bad == "" {
+				c.OK(rule, key, c.P.InstrPos(in), "six attributes copied from "+base, true)
+			} else {
+				c.Bad(rule, key, c.P.InstrPos(in), "attributes not taken from the disk:"+bad, nil)
+			}
+		})
+		if n != 1 {
+			c.Bad(rule, FnName(fn)+" | one entry per disk", c.P.Pos(fn.Pos()), fmt.Sprintf("%d map updates of the result found, expected one", n), nil)
+		}
+	}
+}
